@@ -541,10 +541,11 @@ class C12(Property):
             if len(ia) != len(ma):
                 return False
             for a, b in zip(ia, ma):
-                pa, pb = self._PARAM.match(a), self._PARAM.match(b)
-                if not pa or not pb or not self._same_dicts(pa.group(1), pb.group(1)):
+                # four dictionaries (no spaces inside: keys never contain an ASCII space) and the parameter
+                fa, fb = a.split(' ', 4), b.split(' ', 4)
+                if len(fa) != 5 or len(fb) != 5 or not self._same_dicts(' '.join(fa[:4]), ' '.join(fb[:4])):
                     return False
-                vi, vm = pa.group(2), pb.group(2)
+                vi, vm = fa[4], fb[4]
                 if vi == '-':
                     if c.get('eval') and vm not in ('-', '"None"'):
                         return False
